@@ -99,11 +99,6 @@ def segsOf (fuel seed : Nat) (data : Bytes) : List Bytes :=
     let n := 1 + (y / 65536) % 3000
     data.take n :: segsOf fuel y (data.drop n)
 
-/-- offsets of consecutive chunks -/
-def withOffsets : Nat → List Bytes → List (Nat × Bytes)
-  | _, [] => []
-  | off, b :: bs => (off, b) :: withOffsets (off + b.length) bs
-
 def simRead (stream : Bytes) (mode : String) (seed : Nat) : String :=
   let parts := mode.splitOn ":"
   let p := max 1 ((parts.getD 1 "1000").toNat?.getD 1000)
@@ -372,6 +367,28 @@ def actOp (ws : List String) (d : DState) : DState × String :=
       | _ => (d, "bad-op")
   | _ => (d, "bad-op")
 
+/-- `n` blocked `send_datagram_wait` futures polled by hand with their own wakers, then `Connection::close`
+    without yielding: wake counts per waker, then the re-polls -/
+def syncCloseOp (ws : List String) (d : DState) : DState × String :=
+  match ws with
+  | [sd, n] =>
+    match sideOf sd, n.toNat? with
+    | some side, some n =>
+      let ids := (List.range n).map (· + 900000)
+      let (W, pend) := ids.foldl (fun (acc : World × Nat) w =>
+        match acc.1.step (.poll .connectionTrySendDatagram 0 w) with
+        | (W', .pending) => (W', acc.2 + 1)
+        | (W', _) => (W', acc.2)) (getW d side, 0)
+      let W' := (W.step .close).1
+      let woken := ids.map fun w => toString ((newlyWoken W.st W'.st).count w)
+      let (W'', results) := ids.foldl (fun (acc : World × List String) w =>
+        match acc.1.step (.poll .connectionTrySendDatagram 0 w) with
+        | (Wn, .err e) => (Wn, acc.2 ++ [s!"err:{e.name}"])
+        | (Wn, _) => (Wn, acc.2 ++ ["pending"])) (W', [])
+      (setW d side W'', s!"pending={pend} woken=[{",".intercalate woken}] results=[{",".intercalate results}]")
+    | _, _ => (d, "bad-op")
+  | _ => (d, "bad-op")
+
 def connC (ws : List String) (d : DState) : DState × String :=
   if kvNat ws "zero" 0 == 1 then (d, "ok") else
   -- an established connection: both workers have seen `Connected`
@@ -394,6 +411,7 @@ def step (d : DState) (line : String) : DState × String :=
     | "C" :: "pend" :: rest => pendOp rest d
     | "C" :: "act" :: rest => actOp rest d
     | "C" :: "close" :: rest => closeOp rest d
+    | "C" :: "syncclose" :: rest => syncCloseOp rest d
     | _ => (d, "bad-op")
   ({ d' with lineNo := d'.lineNo + 1 }, out)
 
